@@ -323,8 +323,8 @@ func r18i(c *core.Ctx) {
 			if !ok || !ci.Common().IsInvoke() || ci.Common().Method.Name() != "Close" {
 				return
 			}
-			e := strings.ToLower(core.Expr(ci.Common().Value))
-			if strings.Contains(e, "closer") {
+			// the closer is the io.Closer the transport was given (whatever the field is called)
+			if core.TypeName(ci.Common().Value.Type()) == "io.Closer" {
 				closerCall = in
 				guard = ci.Common().Value
 			}
